@@ -1,5 +1,5 @@
 ENGINES = [
-    {"name": "seqx", "path": "seqx/", "serves_properties": ["C01", "C20"],
+    {"name": "seqx", "path": "seqx/", "serves_properties": ["C01", "C17", "C20"],
      "kind_free_text": "explicit-state breadth-first search over operation sequences: successor = fresh real instance + replay of the shortest history + one operation; dedup on the reference model's canonical state; every operation of the alphabet applied from every reachable state and compared with the reference model"},
     {"name": "gosched", "path": "vrt/ explore/ instr/", "serves_properties": ["C01", "C02", "C03", "C04"],
      "kind_free_text": "stateless model checker for Go: AST instrumenter rewrites go/chan/select/sync/atomic/time/context onto a cooperative scheduler (vrt); explorer does DFS over schedules and environment choices with iterative preemption bounding, work-splitting over worker processes, replay files"},
@@ -8,6 +8,13 @@ NOTES = "All checks rebuild from /repo's working tree through bin/prepare (instr
 NOT_APPLICABLE = {}
 A_NOTE = "Trusted: the vrt shims model Go's mutex/cond/channel/select/timer semantics faithfully (self-tests + repository tests pass on the instrumented build in passthrough mode); sequential consistency; scheduling points before acquire-type operations only; data races are left to a separate -race pass."
 CHECKS = {
+    "C17": {
+        "engine": "seqx+gosched",
+        "technique": "explicit-state BFS over dependency-database operations vs a set model (white-box facade) + exhaustive enumeration of registration sequences on the real runtime run to exact quiescence on the controlled scheduler",
+        "text": "White-box: every AddControllerOutput/AddControllerInput/DeleteControllerInput operation (2 controllers x 2 types x ids none/a/b x all 6 input kinds x both output kinds) from every model state reachable within depth 4 (thorough 5) on the real dependency.Database, with Export/GetDependentControllers/GetControllerInputs/GetControllerOutputs compared with a set model after each step. API: every sequence of <= 3 (thorough 4) RegisterController/RegisterQController/UpdateInputs calls over 14 valid and invalid declarations (duplicate keys, wrong kind for the flavour, concurrency 0, exclusive/shared clashes on the first or a later output, duplicate name) with Run started at every position, on the real runtime: accept/reject as the model predicts, graph == accepted declarations after every step (a rejected registration changes nothing), then one write per (type,id) wakes exactly the controllers with a matching input by kind or by ID, no goroutine panics, clean shutdown.",
+        "design_ref": "DESIGN.md 3/C17",
+        "note": A_NOTE + " The API part uses the deterministic default schedule; delivery interleavings are C05's subject.",
+    },
     "C20": {
         "engine": "seqx",
         "technique": "explicit-state BFS over key-storage operation sequences vs a reference model (every operation from every reachable abstract state) + exhaustive single-alteration tampering of the serialised storage from every reachable state",
